@@ -198,6 +198,9 @@ def keep(d, name):
     dst = os.path.join(VERIF, "seeded", name)
     os.makedirs(dst, exist_ok=True)
     for f in os.listdir(out):
+        if os.path.isdir(os.path.join(out, f)):
+            shutil.copytree(os.path.join(out, f), os.path.join(dst, f), dirs_exist_ok=True)
+            continue
         shutil.copy(os.path.join(out, f), os.path.join(dst, f + (".txt" if f.endswith("_test.go") else "")))
     print("kept in", dst)
     return 0
